@@ -8,7 +8,7 @@ from h5 import lean, wire
 
 ID = "C02"
 PROPS_MODULE = "H5.Props.C02"
-EXTRA_PROPS_MODULES = ["H5.Props.C02b"]
+EXTRA_PROPS_MODULES = ["H5.Props.C02b", "H5.Props.C02c", "H5.Props.C02cOk"]
 GEN_MODULES = ["Constants", "Entities"]
 CORRESPONDENCE_OPS = ["tok", "toksteps", "tokpull"]
 SOURCES = ["html5lib/_tokenizer.py", "html5lib/_inputstream.py", "html5lib/constants.py", "html5lib/_trie/py.py",
